@@ -76,6 +76,13 @@ CHECKS = {
          "(about 750 incl. all lookups with <=2 keys into 6 targets), plus seeded 3-op histories mixing creation and tools. The subnet-reproduces-"
          "results clause is not yet included.",
     technique="TLA+ editing machine (PPEdit/MC_Edit) model-checked with TLC + TLC-generated tool calls replayed into pandapipes.toolbox + trace validation (Trace_Edit)"),
+ "C01": dict(level="model_checking", text="(a) Every designed scenario's reported flows equal the designed integers and balance at every junction (Trace_Ref); (b) TLC-generated nets of all component kinds (water / lgas) are solved and Trace_PF sums the REPORTED flows at every supplied junction and over the net in 1e-9 kg/s ticks (slack per term, not per network size).", design_ref="DESIGN.md 5 C01", note='Trusted: designed constants (harness/designed.py: D*, eta, k), the harness-computed barometric table (documented formula, 1e-6 bar), tick projection. The exact clauses cover the designed liquid family only (constant-property fluid, nikuradse friction, pipes / valves / heat exchangers, trees + chords, up to 6 junctions sampled, <=3 junctions exhaustive in the model); gases, colebrook / swamee-jain and library fluids are not yet covered by the exact reference (limits in DESIGN.md section 6).', technique='TLA+ exact reference model (PPRefHyd/GenHyd) model-checked with TLC + TLC-generated scenarios replayed into pandapipes + trace validation (Trace_Ref/Trace_PF)'),
+ "C02": dict(level="model_checking", text="Scenarios of the exact reference model PPRefHyd (integer arithmetic for the documented liquid law: hydrostatic + Darcy-Weisbach with lambda = 64/Re + 1/16 + lumped loss) are generated by TLC, solved by pandapipes and every reported end pressure, mass flow, velocity, Reynolds number, friction factor and volume flow is compared with TLC's own prediction within 2e-6.", design_ref="DESIGN.md 5 C02", note='Trusted: designed constants (harness/designed.py: D*, eta, k), the harness-computed barometric table (documented formula, 1e-6 bar), tick projection. The exact clauses cover the designed liquid family only (constant-property fluid, nikuradse friction, pipes / valves / heat exchangers, trees + chords, up to 6 junctions sampled, <=3 junctions exhaustive in the model); gases, colebrook / swamee-jain and library fluids are not yet covered by the exact reference (limits in DESIGN.md section 6).', technique='TLA+ exact reference model (PPRefHyd/GenHyd) model-checked with TLC + TLC-generated scenarios replayed into pandapipes + trace validation (Trace_Ref/Trace_PF)'),
+ "C03": dict(level="model_checking", text="Designed scenarios: feeder junction at the mean of its ext_grid pressures, every scaled sink/source reports mdot*scaling, feed-in equals net consumption. TLC-generated nets (incl. controller-dense ones): active flow controller / mass circulation pump carry their set flow, pressure pump lifts by plift, a well-posed active pressure controller's controlled junction has the controlled pressure, fixed junctions have the mean of their feeders (Trace_PF, 3e-7).", design_ref="DESIGN.md 5 C03", note='Trusted: designed constants (harness/designed.py: D*, eta, k), the harness-computed barometric table (documented formula, 1e-6 bar), tick projection. The exact clauses cover the designed liquid family only (constant-property fluid, nikuradse friction, pipes / valves / heat exchangers, trees + chords, up to 6 junctions sampled, <=3 junctions exhaustive in the model); gases, colebrook / swamee-jain and library fluids are not yet covered by the exact reference (limits in DESIGN.md section 6).', technique='TLA+ exact reference model (PPRefHyd/GenHyd) model-checked with TLC + TLC-generated scenarios replayed into pandapipes + trace validation (Trace_Ref/Trace_PF)'),
+ "C06": dict(level="model_checking", text='Every designed scenario is rebuilt with gapped / threshold-crossing (49..51, 99999..100001) / huge junction labels, unsorted branch and load labels and shuffled table rows; the exact prediction (label-free) must hold for every corresponding element.', design_ref="DESIGN.md 5 C06", note='Trusted: designed constants (harness/designed.py: D*, eta, k), the harness-computed barometric table (documented formula, 1e-6 bar), tick projection. The exact clauses cover the designed liquid family only (constant-property fluid, nikuradse friction, pipes / valves / heat exchangers, trees + chords, up to 6 junctions sampled, <=3 junctions exhaustive in the model); gases, colebrook / swamee-jain and library fluids are not yet covered by the exact reference (limits in DESIGN.md section 6).', technique='TLA+ exact reference model (PPRefHyd/GenHyd) model-checked with TLC + TLC-generated scenarios replayed into pandapipes + trace validation (Trace_Ref/Trace_PF)'),
+ "C07": dict(level="model_checking", text='Designed scenarios solved with use_numba, only_update_hydraulic_matrix and reuse_internal_data must equal the exact prediction; MC_Hist call histories over {plain, update, reuse} with load edits, structural edits and legitimate reuse are compared bit-exactly with fresh-net runs.', design_ref="DESIGN.md 5 C07", note='Trusted: designed constants (harness/designed.py: D*, eta, k), the harness-computed barometric table (documented formula, 1e-6 bar), tick projection. The exact clauses cover the designed liquid family only (constant-property fluid, nikuradse friction, pipes / valves / heat exchangers, trees + chords, up to 6 junctions sampled, <=3 junctions exhaustive in the model); gases, colebrook / swamee-jain and library fluids are not yet covered by the exact reference (limits in DESIGN.md section 6).', technique='TLA+ exact reference model (PPRefHyd/GenHyd) model-checked with TLC + TLC-generated scenarios replayed into pandapipes + trace validation (Trace_Ref/Trace_PF)'),
+ "C08": dict(level="model_checking", text='Every designed scenario is started from pn_bar 0.6 / 30 / 9 / 2 bar and with automatic damping; every converged run must equal the exact prediction (hence any two agree).', design_ref="DESIGN.md 5 C08", note='Trusted: designed constants (harness/designed.py: D*, eta, k), the harness-computed barometric table (documented formula, 1e-6 bar), tick projection. The exact clauses cover the designed liquid family only (constant-property fluid, nikuradse friction, pipes / valves / heat exchangers, trees + chords, up to 6 junctions sampled, <=3 junctions exhaustive in the model); gases, colebrook / swamee-jain and library fluids are not yet covered by the exact reference (limits in DESIGN.md section 6).', technique='TLA+ exact reference model (PPRefHyd/GenHyd) model-checked with TLC + TLC-generated scenarios replayed into pandapipes + trace validation (Trace_Ref/Trace_PF)'),
+ "C09": dict(level="model_checking", text='Rewrites as generator dimensions (orientation of every branch, section counts; TLC checks the prediction is invariant) and as builder variants (sectioned pipe -> series pipes, demand split over scaled sinks, source as negative sink, switched-off extra elements); the same exact prediction must hold; the liquid pressure-shift law is a TLC-checked invariant of the model and is exercised by the two-feeder scenarios.', design_ref="DESIGN.md 5 C09", note='Trusted: designed constants (harness/designed.py: D*, eta, k), the harness-computed barometric table (documented formula, 1e-6 bar), tick projection. The exact clauses cover the designed liquid family only (constant-property fluid, nikuradse friction, pipes / valves / heat exchangers, trees + chords, up to 6 junctions sampled, <=3 junctions exhaustive in the model); gases, colebrook / swamee-jain and library fluids are not yet covered by the exact reference (limits in DESIGN.md section 6).', technique='TLA+ exact reference model (PPRefHyd/GenHyd) model-checked with TLC + TLC-generated scenarios replayed into pandapipes + trace validation (Trace_Ref/Trace_PF)'),
 }
 NA_REASON = "check not built yet in this round (work in progress; see DESIGN.md section 5 for the planned decision procedure)"
 
